@@ -644,3 +644,123 @@ Definition console_view (san : bool) (c : config) (location : url) (fs : list (s
 
 Definition location_has_no_secret (c : config) (u : url) : bool :=
   negb (fst (netloc_public (u_netloc u))) && negb (existsb (fun kv => is_sensitive c (fst kv)) (u_query u)).
+
+(* ---------------------------------------------------------------- derived encodings, order of
+   sanitization and request preparation (strengthening after seed C15_e).
+
+   requests.auth._basic_auth_str: Basic + base64(latin1(user:pass)).  RFC 4648 standard alphabet with
+   padding, on a list of byte values (code points below 256; anything else is outside the model:
+   the real function raises UnicodeEncodeError there). *)
+Definition b64_alphabet : list N :=
+  [65;66;67;68;69;70;71;72;73;74;75;76;77;78;79;80;81;82;83;84;85;86;87;88;89;90;
+   97;98;99;100;101;102;103;104;105;106;107;108;109;110;111;112;113;114;115;116;117;118;119;120;121;122;
+   48;49;50;51;52;53;54;55;56;57;43;47]%N.
+Definition PAD : N := 61%N.
+Definition b64_char (i : N) : N := nth (N.to_nat i) b64_alphabet PAD.
+
+Fixpoint b64 (l : list N) : list N :=
+  match l with
+  | [] => []
+  | [a] => [b64_char (a / 4); b64_char ((a mod 4) * 16); PAD; PAD]%N
+  | [a; b] => [b64_char (a / 4); b64_char ((a mod 4) * 16 + b / 16); b64_char ((b mod 16) * 4); PAD]%N
+  | a :: b :: c :: r =>
+      (b64_char (a / 4) :: b64_char ((a mod 4) * 16 + b / 16) :: b64_char ((b mod 16) * 4 + c / 64) ::
+       b64_char (c mod 64) :: b64 r)%N
+  end.
+
+(* the inverse, on padded text only: None = not a base64 text *)
+Fixpoint index_of (ch : N) (l : list N) (i : N) : option N :=
+  match l with
+  | [] => None
+  | x :: r => if N.eqb x ch then Some i else index_of ch r (i + 1)%N
+  end.
+Definition b64_index (ch : N) : option N := index_of ch b64_alphabet 0%N.
+
+Fixpoint b64_decode (l : list N) : option (list N) :=
+  match l with
+  | [] => Some []
+  | c0 :: c1 :: c2 :: c3 :: r =>
+      match b64_index c0, b64_index c1 with
+      | Some i0, Some i1 =>
+          if N.eqb c3 PAD then
+            match r with
+            | [] =>
+                if N.eqb c2 PAD
+                then (if N.eqb (i1 mod 16) 0 then Some [i0 * 4 + i1 / 16] else None)%N
+                else match b64_index c2 with
+                     | Some i2 => (if N.eqb (i2 mod 4) 0 then Some [i0 * 4 + i1 / 16; (i1 mod 16) * 16 + i2 / 4] else None)%N
+                     | None => None
+                     end
+            | _ => None
+            end
+          else
+            match b64_index c2, b64_index c3, b64_decode r with
+            | Some i2, Some i3, Some t => Some (i0 * 4 + i1 / 16 :: (i1 mod 16) * 16 + i2 / 4 :: (i2 mod 4) * 64 + i3 :: t)%N
+            | _, _, _ => None
+            end
+      | _, _ => None
+      end
+  | _ => None
+  end.
+
+Definition is_bytes (l : list N) : bool := forallb (fun x => N.ltb x 256) l.
+
+(* the text of a header value after prepare(): what curl.generate prints after the header name *)
+Definition s_Basic_sp : str := [66;97;115;105;99;32]%N. (* Basic + space *)
+Definition render_cookie_jar (ck : sdict) : str :=
+  join [SEMI; SP] (map (fun kv => fst kv ++ [EQS] ++ snd kv) ck).
+Definition basic_value (u p : str) : str := s_Basic_sp ++ b64 (u ++ [COLON] ++ p).
+Definition render_hvalue (v : hvalue) : str :=
+  match v with
+  | HPlain s => s
+  | HCookieJar ck => render_cookie_jar ck
+  | HBasic u p => basic_value u p
+  end.
+Definition rendered_headers (hs : list (str * hvalue)) : sdict := map (fun kv => (fst kv, render_hvalue (snd kv))) hs.
+
+Definition view_url {B C D} (v : url * B * C * D) : url := fst (fst (fst v)).
+Definition view_headers {A B D} (v : A * B * list (str * hvalue) * D) : list (str * hvalue) := snd (fst v).
+
+(* get_auth_from_url seen from the userinfo alone (what is before the last @) *)
+Definition userinfo_auth (ui : str) : option (str * str) :=
+  match split_on COLON ui with
+  | u :: p :: ps =>
+      let pw := join [COLON] (p :: ps) in
+      match u, pw with [], [] => None | _, _ => Some (u, pw) end
+  | _ => None
+  end.
+
+(* the same case on another netloc *)
+Definition with_netloc (n : str) (k : case_kwargs) : case_kwargs :=
+  {| k_url := {| u_scheme := u_scheme (k_url k); u_netloc := n; u_path := u_path (k_url k);
+                 u_query := u_query (k_url k); u_fragment := u_fragment (k_url k) |};
+     k_headers := k_headers k; k_cookies := k_cookies k; k_params := k_params k; k_auth := k_auth k; k_open := k_open k |}.
+
+(* specification side of the structural oracle: every header of the view whose NAME is credential-bearing
+   (Authorization, Proxy-Authorization, Cookie, X-...-Token, ...) carries exactly the marker - not a cookie jar,
+   not a Basic value *)
+Definition headers_redacted (c : config) (hs : list (str * hvalue)) : bool :=
+  forallb (fun kv => if is_sensitive c (fst kv)
+                     then match snd kv with HPlain v => str_eqb v (repl c) | _ => false end
+                     else true) hs.
+
+(* regions of the structural theorem: no request auth object (finding C15-F2), no Cookie header built from the jar
+   (finding C15-F3), and a marker from which get_auth_from_url derives nothing (no colon: the default one) *)
+Definition no_cookie_jar_header (c : config) (k : case_kwargs) : bool :=
+  negb (is_sensitive c s_Cookie) ||
+  match k_cookies k with [] => true | _ => has_header s_Cookie (k_headers k) end.
+Definition marker_derives_nothing (c : config) : bool := negb (mem COLON (repl c)).
+
+(* SENTINEL, not the current code (seed C15_e): headers and cookies sanitised, then requests prepare() on the RAW
+   URL (params merged into its query: enc = the foreign encoding of the params), and only then sanitize_url on
+   request.url.  prepare_auth has already read the userinfo by then.  Kept to state that this order leaks. *)
+Definition curl_view_prepare_first (enc : list (str * json) -> sdict) (san : bool) (c : config) (k : case_kwargs)
+  : url * list (str * json) * list (str * hvalue) * str :=
+  let h := if san then sanitize_sdict c (k_headers k) else k_headers k in
+  let ck := if san then sanitize_sdict c (k_cookies k) else k_cookies k in
+  let hs := requests_prepare (u_netloc (k_url k)) h ck (k_auth k) in
+  let merged := {| u_scheme := u_scheme (k_url k); u_netloc := u_netloc (k_url k); u_path := u_path (k_url k);
+                   u_query := u_query (k_url k) ++ enc (k_params k); u_fragment := u_fragment (k_url k) |} in
+  (if san then sanitize_url c merged else merged, [], hs, k_open k).
+
+Definition no_params_enc (ps : list (str * json)) : sdict := [].
